@@ -4,6 +4,7 @@ Tokens: `-` is the empty string / empty list; lists are comma separated; address
 engine's canonical names (no spaces).  Environment ops (`reset`, `fund`, `lk.new`, `cl.new`) describe
 objects the engine created through the real keepers; message ops go through `Auth.step`. -/
 import OsmoVerif.Model.Auth
+import OsmoVerif.Model.TokenFactoryGenesis
 namespace OsmoVerif.Auth
 
 def initAuth : State :=
@@ -149,6 +150,14 @@ def stepAuth (st : State) (op : String) (args : List String) : State × String :
   | "tf.admin", [a, d, n] => run (.tfChangeAdmin (unq a) d (unq n)) fun s r => tfObs s r d []
   | "tf.meta", [a, b, v, t] => run (.tfSetMeta (unq a) b (v = "1") (unq t)) fun s r => tfObs s r b []
   | "tf.hook", [a, d, c] => run (.tfSetHook (unq a) d (unq c)) fun s r => tfObs s r d []
+  -- C19: x/tokenfactory ExportGenesis -> tokenfactory store wiped -> InitGenesis (Model/TokenFactoryGenesis); `panic` = InitGenesis
+  -- panics (state unchanged).  `tf.get` = the queries DenomAuthorityMetadata / bank DenomMetadata / BeforeSendHookAddress / supply.
+  | "tf.exportimport", [] =>
+    match tfExportImport st with
+    | some s' => (s', "ok")
+    | none => (st, "panic")
+  | "tf.get", [d] => (st, tfObs st .ok d [])
+  | "tf.params", [] => (st, s!"ok fee={q st.feeDenom}:{st.fee}")
   -- lockup
   | "lk.begin", [a, id, x] =>
     match id.toNat?, x.toInt? with
